@@ -17,7 +17,7 @@ RULE = (
     "re-added next to other rows of its scaffold, or an output junction joins non-neighbours); distinct by SHA-1."
 )
 ASSUMPTIONS = [
-    "input scaffolds neither start nor end with a gap and have at most one gap row between two contigs",
+    "input scaffolds neither start nor end with a gap; between two contigs there are 0, 1 or (sub-check model) 2 gap rows",
     "abutting collinear sub-fragments of one cut contig may be directly adjacent (they were contiguous sequence in the input)",
     "join gap = Gap(200, 'scaffold'), the value pretext-to-asm configures",
 ]
@@ -55,17 +55,21 @@ def oracle(case, outs, model, classes):
                 )
             if not model:
                 continue
-            if len(between) != 1:
-                raise Violation(f"scaffold {name}: {len(between)} gap rows between {x} and {y}: {between}")
-            g = between[0]
-            if g == JOIN:
+            if between == [JOIN]:
                 classes.add("join_gap")
                 continue
-            if known and neigh[adj] and g == neigh[adj][0]:
-                classes.add("input_gap_retained")
-                continue
+            if known and neigh[adj]:
+                # the input's gap rows between these neighbours (all of them, or a contiguous part)
+                want = neigh[adj]
+                n = len(between)
+                # (read in either direction: a reversed piece shows them in reverse order)
+                if any(w[k : k + n] == between for w in (want, want[::-1]) for k in range(len(w) - n + 1)):
+                    classes.add("input_gap_retained")
+                    if len(want) > 1:
+                        classes.add("input_with_consecutive_gap_rows")
+                    continue
             raise Violation(
-                f"scaffold {name}: gap {g} between {x} and {y} is neither the join gap nor the input gap "
+                f"scaffold {name}: gap rows {between} between {x} and {y} are neither the join gap nor the input gap(s) "
                 f"{neigh.get(adj)} of these neighbours"
             )
 
@@ -112,7 +116,7 @@ def body_perturbed(case, rec):
 def model_cases(draw):
     t = draw(gen.texel())
     style = draw(st.integers(0, 2))
-    inp = draw(gen.input_assembly(t, max_contigs=8))
+    inp = draw(gen.input_assembly(t, max_contigs=8, double_gaps=True))
     if style == 0:
         # trailing contigs shorter than a texel: append 1-3 tiny contigs to some scaffolds
         T = max(1, int(t))
